@@ -274,6 +274,41 @@ def run_tags_mixed(spec):
                ["tag:" + it["tag"].split("=")[0].strip() for it in items])
 
 
+CANON = {"DIM": "2 2 1", "MESH": "4 4 4", "MP": "3 3 2", "BAND": "0 0 0 1/2 0 0  1/2 1/2 0", "BAND_POINTS": "11", "TMAX": "500", "TMIN": "10", "TSTEP": "5",
+         "SIGMA": "0.1", "FMAX": "25.5", "FMIN": "-1", "FPITCH": "0.05", "PRIMITIVE_AXES": "F", "DISPLACEMENT_DISTANCE": "0.03", "CUTOFF_FREQUENCY": "0.5",
+         "SYMMETRY_TOLERANCE": "1e-3", "Q_DIRECTION": "1 0 0", "QPOINTS": "0 0 0  1/2 0 0", "PDOS": "1 2", "PROJECTION_DIRECTION": "0 0 1",
+         "GV_DELTA_Q": "0.001", "NAC_METHOD": "wang", "BAND_LABELS": "G X M", "MAGMOM": "1 -1", "FREQUENCY_CONVERSION_FACTOR": "2.0",
+         "RANDOM_DISPLACEMENTS": "5", "RANDOM_DISPLACEMENT_TEMPERATURE": "300", "MOMENT_ORDER": "2", "IRREPS": "0 0 0", "MODULATION": "1 1 1, 0 0 0 1 1 0",
+         "ANIME": "0 0 0", "BAND_FORMAT": "hdf5", "MESH_FORMAT": "hdf5", "QPOINTS_FORMAT": "hdf5", "READFC_FORMAT": "hdf5", "WRITEFC_FORMAT": "hdf5",
+         "FC_CALCULATOR": "symfc", "FC_CALCULATOR_OPTIONS": "cutoff5", "CELL_FILENAME": "POSCAR-x", "SHOW_IRREPS": ".TRUE.", "FULL_FORCE_CONSTANTS": ".TRUE.",
+         "GAMMA_CENTER": ".TRUE.", "LITTLE_COGROUP": ".TRUE."}
+
+
+def pair_specs(tier):
+    """EVERY unordered pair of documented settings (one canonical value each), both ways of splitting it between the configuration
+    file and the command line, both commands."""
+    pairs = doc_pairs()
+    items = []
+    for opts, tags in pairs:
+        for tag in tags:
+            key = tag.split("=")[0].strip()
+            if "=" in tag or key in CANON:
+                it = {"opt": opts[0], "tag": tag}
+                if "=" not in tag:
+                    it["value"] = CANON[key]
+                items.append((key, it))
+    out = []
+    for a in range(len(items)):
+        for b in range(a + 1, len(items)):
+            ka, kb = items[a][0], items[b][0]
+            if ka == kb or any(ka in g and kb in g for g in EXCLUSIVE):
+                continue
+            for split in (0, 1):
+                for load in (False, True):
+                    out.append({"items": [dict(items[a][1], in_conf=bool(split)), dict(items[b][1], in_conf=not split)], "load": load})
+    return out
+
+
 # ----------------------------------------------------------------------------------------- workflows
 
 def cli(cmd, argv, cwd, timeout=300):
@@ -303,7 +338,12 @@ def wf_specs(draw, tier):
             "mode": draw(st.sampled_from(["mesh_tprop", "band", "qpoints", "dos", "pdos", "tdisp", "writefc_readfc"])),
             "mesh": draw(st.lists(st.integers(2, 5), min_size=3, max_size=3)),
             "tmin": draw(st.sampled_from([0, 50, 100])), "tmax": draw(st.sampled_from([300, 400, 750])), "tstep": draw(st.sampled_from([50, 100, 150])),
-            "sigma": draw(st.sampled_from([None, 0.1, 0.25])), "gamma_center": draw(st.booleans()), "eigvecs": draw(st.booleans())}
+            "sigma": draw(st.sampled_from([None, 0.1, 0.25])), "gamma_center": draw(st.booleans()), "eigvecs": draw(st.booleans()),
+            "band_const": draw(st.booleans()), "band_points": draw(st.sampled_from([5, 11, 16]))}
+    if spec["mode"] == "band":
+        # band paths with similar q-spacing depend on the reciprocal metric: prefer a strongly non-orthogonal cell there
+        spec["proto"] = draw(st.sampled_from(["shear", "shear", "shear", "tric", "nacl_f", "cscl"]))
+        spec["band_const"] = draw(st.sampled_from([True, True, False]))
     spec.update(combo)
     return spec
 
@@ -325,6 +365,9 @@ def make_inputs(spec, d):
             spec = dict(spec, dim=[1, 1, 1])
     elif spec["proto"] == "cscl":
         cell = PhonopyAtoms(symbols=["Na", "Cl"], cell=np.eye(3) * 4.1, scaled_positions=[[0, 0, 0], [.5, .5, .5]])
+        pa, pa_str = None, None
+    elif spec["proto"] == "shear":
+        cell = PhonopyAtoms(symbols=["Na", "Cl"], cell=[[4.0, 0.0, 0.0], [2.0, 3.6, 0.0], [0.4, 1.1, 6.8]], scaled_positions=[[0, 0, 0], [.5, .46, .52]])
         pa, pa_str = None, None
     else:
         cell = PhonopyAtoms(symbols=["Na", "Cl"], cell=[[4.0, 0.2, 0.0], [0.1, 4.3, 0.3], [0.2, 0.0, 4.9]], scaled_positions=[[0, 0, 0], [.5, .47, .53]])
@@ -449,8 +492,11 @@ def _run_workflow(spec, td):
             opts += ["--gc"]
             conf_lines += ["GAMMA_CENTER = .TRUE."]
     elif mode == "band":
-        opts = ["--band", "0 0 0 1/2 0 1/2 1/2 1/2 1/2", "--band-points", "5"] + (["--eigvecs"] if spec["eigvecs"] else [])
-        conf_lines = ["BAND = 0 0 0 1/2 0 1/2 1/2 1/2 1/2", "BAND_POINTS = 5"] + (["EIGENVECTORS = .TRUE."] if spec["eigvecs"] else [])
+        bp = str(spec.get("band_points", 5))
+        opts = ["--band", "0 0 0 1/2 0 1/2 1/2 1/2 1/2", "--band-points", bp] + (["--eigvecs"] if spec["eigvecs"] else []) + \
+            (["--band-const-interval"] if spec.get("band_const") else [])
+        conf_lines = ["BAND = 0 0 0 1/2 0 1/2 1/2 1/2 1/2", "BAND_POINTS = " + bp] + (["EIGENVECTORS = .TRUE."] if spec["eigvecs"] else []) + \
+            (["BAND_CONST_INTERVAL = .TRUE."] if spec.get("band_const") else [])
     elif mode == "qpoints":
         opts = ["--qpoints", "0.1 0.2 0.3 1/2 0 0 0 0 0"] + (["--q-direction", "1 0 0"] if spec["nac"] else []) + (["--eigvecs"] if spec["eigvecs"] else [])
         conf_lines = ["QPOINTS = 0.1 0.2 0.3 1/2 0 0 0 0 0"] + (["Q_DIRECTION = 1 0 0"] if spec["nac"] else []) + (["EIGENVECTORS = .TRUE."] if spec["eigvecs"] else [])
@@ -576,11 +622,24 @@ def compare_with_library(spec, ph, d, mode):
         if e or not np.array_equal(w, md["weights"]):
             return "mesh.yaml differs from Phonopy.run_mesh: %s" % (e or "weights")
     elif mode == "band":
-        path = [np.array([np.array([0, 0, 0]) + t * (np.array([.5, 0, .5])) for t in np.linspace(0, 1, 5)]),
-                np.array([np.array([.5, 0, .5]) + t * (np.array([.5, .5, .5]) - np.array([.5, 0, .5])) for t in np.linspace(0, 1, 5)])]
+        from phonopy.phonon.band_structure import get_band_qpoints
+
+        ends = [[[0, 0, 0], [.5, 0, .5], [.5, .5, .5]]]
+        nbp = spec.get("band_points", 5)
+        if spec.get("band_const"):
+            # documented: similar q-spacing on every segment, reciprocal basis vectors in columns = inverse of the row-vector cell
+            path = get_band_qpoints(ends, npoints=nbp, rec_lattice=np.linalg.inv(ph.primitive.cell))
+        else:
+            path = get_band_qpoints(ends, npoints=nbp)
         ph.run_band_structure(path, with_eigenvectors=spec["eigvecs"])
         bd = ph.get_band_structure_dict()
         by = _yaml(os.path.join(d, "band.yaml"))
+        if list(by["segment_nqpoint"]) != [len(x) for x in path]:
+            return "band.yaml segment_nqpoint %s, library path has %s points per segment (const interval %s)" % (by["segment_nqpoint"], [len(x) for x in path],
+                                                                                                                  spec.get("band_const"))
+        qy = np.array([p["q-position"] for p in by["phonon"]])
+        if np.abs(qy - np.vstack(path)).max() > 1e-6:
+            return "band.yaml q-positions differ from the library's band path by %.3e" % np.abs(qy - np.vstack(path)).max()
         fb = np.array([[b["frequency"] for b in p["band"]] for p in by["phonon"]])
         want = np.vstack(bd["frequencies"])
         e = freqs_differ(fb, want)
@@ -646,6 +705,8 @@ SUBCHECKS = [
         what="every documented (option, tag) pair, both commands: configuration-file route and option route give the same Settings"),
     Sub("tags_mixed", run=run_tags_mixed, strategy=mixed_specs, examples={"quick": 4000, "thorough": 100000}, shards={"quick": 4, "thorough": 16}, builds=["omp"],
         what="2-4 documented settings at once: all as tags == all as options == any split between configuration file and command line"),
+    Sub("tags_pairs", run=run_tags_mixed, enumerate=pair_specs, shards={"quick": 8, "thorough": 8}, builds=["omp"], budget={"quick": 200, "thorough": 600},
+        what="EXHAUSTIVE: every pair of documented settings x both splits between configuration file and command line x both commands"),
     Sub("workflows", run=run_workflow, strategy=wf_specs, examples={"quick": 128, "thorough": 3000}, shards={"quick": 16, "thorough": 16}, builds=["omp"],
         budget={"quick": 150, "thorough": 3000},
         what="real command runs (options and conf file) vs library calls: -d, mesh/thermal, band, q-points, dos/pdos, thermal displacements, write/read fc, phonopy.yaml reload"),
